@@ -120,7 +120,8 @@ Fixpoint leaves_kinds (ms os : list leaf) : list kind :=
 (* defect-shape codes of a position (first one met on the way down):
    0 none, 1 below a struct stored by value in a map (F8a), 2 below a non-Taggable map payload (F8b),
    3 below a Taggable map none of whose tags names an existing key (F8c), 4 below an unexported field (F10),
-   5 in a struct field that follows a Taggable struct field of the same struct (withIgnoreTaggable leaking to siblings) *)
+   5 in a struct field that follows a Taggable struct field of the same struct (withIgnoreTaggable leaking to siblings),
+   6 in a nested map that a pointer tag "/k/k2" of the enclosing Taggable map goes through *)
 Definition is_tstruct (x : v) : bool := match deref x with VStruct (Some _) _ => true | _ => false end.
 Definition setw (w code : N) : N := if N.eqb w 0 then code else w.
 Definition no_tag_matches (tg : option (list mtag)) (l : list (N * v)) : bool :=
@@ -159,7 +160,10 @@ Fixpoint diff (w : N) (m o : v) {struct m} : list (N * kind) :=
          match l, l' with
          | [], [] => []
          | (k, a) :: r, (k', b) :: r' =>
-             (if N.eqb k k' then diff (match a with VStruct _ _ => setw w1 1 | _ => w1 end) a b else [(w1, KShape)]) ++ go r r'
+             (if N.eqb k k' then diff (match a with
+                                       | VStruct _ _ => setw w1 1
+                                       | _ => match nested_tags k (match tg with Some ts => ts | None => [] end) with [] => w1 | _ => setw w1 6 end
+                                       end) a b else [(w1, KShape)]) ++ go r r'
          | _, _ => [(w1, KShape)]
          end) l l'
   | _, _ => [(w, KShape)]
